@@ -26,6 +26,7 @@ from pyfatfs.DosDateTime import DosDateTime  # noqa: E402
 from pyfatfs.EightDotThree import EightDotThree  # noqa: E402
 from pyfatfs._exceptions import PyFATException  # noqa: E402
 
+PyFat.__del__ = lambda self: None      # bare objects built by the harness must not run close() at GC
 assert os.path.realpath(pyfatfs.__file__).startswith(os.path.realpath(REPO)), pyfatfs.__file__
 
 VMODEL = os.path.join(VERIF, "ocaml", "vmodel")
@@ -329,6 +330,8 @@ class ImplRun:
     def op(self, op):
         """returns (result, writes)"""
         w0 = len(self.dev.writes)
+        if op[0] in HANDLE_OPS and op[1] not in self.handles:
+            return ("skip", None), []          # the open of this handle failed earlier in the program
         with warnings.catch_warnings():
             warnings.simplefilter("ignore")
             try:
@@ -470,7 +473,7 @@ class ModelRun:
             def conv(s):
                 t = s.split()
                 nm = dec_shown(t[0], E)
-                return [nm if op[1].strip("/") else "/", t[1] == "1"] + [int(x) for x in t[2:]]
+                return [nm, t[1] == "1"] + [int(x) for x in t[2:]]
             return res(r, conv), ws
         if k == "create":
             ws, r = m.cmd(f"create {P(op[1])} {int(bool(op[2])) if len(op) > 2 else 0}")
@@ -519,6 +522,7 @@ class ModelRun:
             self.m.close()
 
 
+HANDLE_OPS = {"read", "write", "seek", "tell", "truncate", "hclose"}
 MODEL_OPS = {"exists", "isdir", "isfile", "listdir", "getsize", "getinfo", "create", "makedir", "remove", "removedir",
              "removetree", "setinfo", "open", "read", "write", "seek", "tell", "truncate", "hclose", "closefs"}
 
